@@ -402,7 +402,7 @@ def gates(obs, tier):
     ce = obs.get("contract_evaluations", {})
     return {
         "pipeline_reached": calls.get("compute_dyadic_downscaling", 0) > 0
-        and calls.get("load_and_downscale_old_chunk", 0) > 0,
+        and calls.get("compute_dyadic_scales", 0) > 0,
         "poisoned_allocations_in_every_run": obs.get("poisoned_allocations", 0) > 0
         and obs.get("runs_without_poison_hit", 0) == 0,
         "levels_compared": obs.get("levels_compared", 0) > 60,
